@@ -117,7 +117,14 @@ def docLoop (valueFuel : Nat) : Nat → List Str → List Node → KeyPos → P 
 /-- `parse_document`. -/
 def parseDocument : P Document := do
   let n := 2 * (← budget) + 10
+  let st0 ← get
   skipWhitespace
+  let c0 ← current
+  let atMeta := c0.type == .identifier && c0.value == .str "META".toList
+  if !(c0.type == .grammarSentinel || c0.type == .envelopeStart) && !atMeta then
+    -- no sentinel / envelope / META follows: `self.pos = start_pos`, comments stay for the body loop
+    set st0
+    skipWhitespace false
   let mut doc : Document := {}
   if (← curType) == .grammarSentinel then
     doc := { doc with grammarVersion := some (pyStrVal (← current).value) }
